@@ -1480,7 +1480,7 @@ pub fn run(opts: &Opts) -> i32 {
     ev.extra.insert("simulated_time".into(), json!("not applicable: no clock is read by the compiler; the logical clock is the operation / syscall sequence"));
     let nviol = violations.len();
     let outcome = harness::conclude(PROP, violations, opts, &harness::verify_in_fresh_process);
-    ev.write(opts, nviol);
+    ev.write(opts, outcome.unlisted as usize, nviol);
     println!(
         "C15 {}: {} histories, {} operations, {} simulated processes, {} JSON nodes corrupted one by one, {} violations ({} known), {:.1}s",
         opts.tier.name(),
